@@ -332,7 +332,23 @@ def strings_upto(alpha, n):
             yield "".join(t)
 
 
+MODELLED = [
+    "webob.acceptparse:Accept.parse", "webob.acceptparse:AcceptCharset.parse", "webob.acceptparse:AcceptEncoding.parse",
+    "webob.acceptparse:AcceptLanguage.parse", "webob.acceptparse:Accept._parse_media_type_params",
+    "webob.acceptparse:Accept._process_quoted_string_token", "webob.acceptparse:Accept._form_media_range",
+    "webob.acceptparse:Accept._escape_and_quote_parameter_value", "webob.acceptparse:create_accept_header",
+    "webob.acceptparse:create_accept_charset_header", "webob.acceptparse:create_accept_encoding_header",
+    "webob.acceptparse:create_accept_language_header",
+]
+REGENERATED = ["webob.acceptparse:Accept.accept_compiled_re", "webob.acceptparse:AcceptCharset.accept_charset_compiled_re",
+               "webob.acceptparse:AcceptEncoding.accept_encoding_compiled_re",
+               "webob.acceptparse:AcceptLanguage.accept_language_compiled_re", "webob.acceptparse:token_compiled_re",
+               "webob.acceptparse:Accept.media_type_compiled_re"]
+
+
 def run(ctx):
+    ctx.modelled(MODELLED)
+    ctx.extra["regenerated_from_source"] = REGENERATED
     problems = gen(ctx)
     ctx.broken += problems
     ctx.build(["Props/C03.vo"])
